@@ -1,7 +1,100 @@
 package run
 
-import "fmt"
+import (
+	"fmt"
+	"reflect"
+
+	"go.uber.org/dig"
+
+	"verif/harness/univ"
+)
+
+// InvalidClasses lists the classes of functions / options dig must reject; a catalog function
+// with Inv set to one of them is built as the corresponding bad Go value (its flat lists are
+// ignored). The specification says only: the verdict is "invalid" and nothing changes.
+var InvalidClasses = []string{"nil", "nonfunc", "nilfunc", "ptrin", "outparam", "inresult", "noresult",
+	"badopt", "unexported", "grpnotslice", "grpoptional", "namegroup", "backquote", "asnonptr", "asnil",
+	"asunimpl", "flattenas", "emptygroup", "softresult", "flattennonslice", "embptrin", "errfield"}
+
+// InvalidDecClasses are the classes usable for decorators (no options).
+var InvalidDecClasses = []string{"nil", "nonfunc", "nilfunc", "ptrin", "outparam", "inresult",
+	"badopt", "unexported", "grpnotslice", "emptygroup", "softresult", "decflatten", "decsingle"}
+
+func fnOf(ins, outs []reflect.Type) interface{} {
+	return reflect.MakeFunc(reflect.FuncOf(ins, outs, false), func([]reflect.Value) []reflect.Value {
+		res := make([]reflect.Value, len(outs))
+		for i, t := range outs {
+			res[i] = reflect.Zero(t)
+		}
+		return res
+	}).Interface()
+}
+
+func inWith(f SigField) reflect.Type  { return itemType(SigItem{K: "in", Fs: []SigField{f}}) }
+func outWith(f SigField) reflect.Type { return itemType(SigItem{K: "out", Fs: []SigField{f}}) }
 
 func (r *Runner) buildInvalid(id string) (interface{}, *layout, error) {
-	return nil, nil, fmt.Errorf("invalid-function classes not built yet (%s)", id)
+	f := r.Cat.Fns[id]
+	t7 := univ.Type("T7")
+	t0 := univ.Type("T0")
+	l := &layout{fn: f}
+	one := func(ins ...reflect.Type) interface{} { return fnOf(ins, []reflect.Type{t7}) }
+	switch f.Inv {
+	case "nil":
+		return nil, l, nil
+	case "nonfunc":
+		return 42, l, nil
+	case "nilfunc":
+		var fn func() *univ.T7
+		return fn, l, nil
+	case "ptrin":
+		return one(atomType("pIN1")), l, nil
+	case "outparam":
+		return one(atomType("OUT1")), l, nil
+	case "embptrin":
+		return one(atomType("EPI")), l, nil
+	case "inresult":
+		return fnOf(nil, []reflect.Type{atomType("IN1")}), l, nil
+	case "noresult":
+		return fnOf([]reflect.Type{t0}, []reflect.Type{errType}), l, nil
+	case "badopt":
+		return one(inWith(SigField{X: true, Ty: "T0", Opt: "maybe"})), l, nil
+	case "unexported":
+		return one(inWith(SigField{X: false, Ty: "T0"})), l, nil
+	case "grpnotslice":
+		return one(inWith(SigField{X: true, Ty: "T0", Grp: "g"})), l, nil
+	case "grpoptional":
+		return one(inWith(SigField{X: true, Ty: "sT0", Grp: "g", Opt: "true"})), l, nil
+	case "emptygroup":
+		return fnOf(nil, []reflect.Type{outWith(SigField{X: true, Ty: "sT0", Grp: ",flatten"})}), l, nil
+	case "softresult":
+		return fnOf(nil, []reflect.Type{outWith(SigField{X: true, Ty: "T0", Grp: "g,soft"})}), l, nil
+	case "flattennonslice":
+		return fnOf(nil, []reflect.Type{outWith(SigField{X: true, Ty: "T0", Grp: "g,flatten"})}), l, nil
+	case "errfield":
+		return fnOf(nil, []reflect.Type{outWith(SigField{X: true, Ty: "err"})}), l, nil
+	case "decflatten":
+		return fnOf(nil, []reflect.Type{outWith(SigField{X: true, Ty: "ssT0", Grp: "g,flatten"})}), l, nil
+	case "decsingle":
+		return fnOf(nil, []reflect.Type{outWith(SigField{X: true, Ty: "T0", Grp: "g"})}), l, nil
+	case "namegroup":
+		l.opts = []dig.ProvideOption{dig.Name("n"), dig.Group("g")}
+		return fnOf(nil, []reflect.Type{t0}), l, nil
+	case "backquote":
+		l.opts = []dig.ProvideOption{dig.Name("a`b")}
+		return fnOf(nil, []reflect.Type{t0}), l, nil
+	case "asnonptr":
+		l.opts = []dig.ProvideOption{dig.As(42)}
+		return fnOf(nil, []reflect.Type{t0}), l, nil
+	case "asnil":
+		l.opts = []dig.ProvideOption{dig.As(nil)}
+		return fnOf(nil, []reflect.Type{t0}), l, nil
+	case "asunimpl":
+		l.opts = []dig.ProvideOption{dig.As(new(univ.IX))}
+		return fnOf(nil, []reflect.Type{t0}), l, nil
+	case "flattenas":
+		l.opts = []dig.ProvideOption{dig.Group("g,flatten"), dig.As(new(univ.I0))}
+		return fnOf(nil, []reflect.Type{atomType("NS")}), l, nil
+	}
+	return nil, nil, fmt.Errorf("unknown invalid class %q of %s", f.Inv, id)
 }
